@@ -431,6 +431,35 @@ def gen_program(rng, focus="c09", maxt=None, busy=False):
     return prog
 
 
+def gen_program_retirement_window(rng):
+    """Workers that retire (idle for the pool's timeout, above min_threads) while the next task is being submitted:
+    cycles of "one task, wait for it, stay idle for about the idle timeout, next task"; each task is waited for, so a
+    task accepted while the last worker is on its way out shows as a frozen wait."""
+    maxt = rng.choice([1, 1, 2, 3])
+    mint = rng.choice([0, 0, 0, max(0, maxt - 2)])
+    t_ms = rng.choice([5, 10, 20])
+    prog = {"max": maxt, "min": mint, "timeout": t_ms / 1000.0, "queue_size": 0, "controller": [], "enqueuers": []}
+    ops = prog["controller"]
+    ops.append(["start"])
+    n = 0
+    for cycle in range(rng.randint(5, 10)):
+        burst = rng.choice([1, 1, 1, 2, maxt])
+        toks = []
+        for _ in range(burst):
+            n += 1
+            kind = rng.choice(["ret", "ret", "exc", "sleep"])
+            ops.append(["enq", "r%d" % n, kind] + ([rng.choice([1, 3])] if kind == "sleep" else []))
+            toks.append("r%d" % n)
+        for tok in toks:
+            ops.append(["wait", tok])
+        # idle for about the timeout: sometimes shorter (the worker is still polling), sometimes a little longer
+        ops.append(["sleep", max(1, t_ms + rng.choice([-3, -1, 0, 1, 2, 4, 8, 15]))])
+    n += 1
+    ops.append(["enq", "r%d" % n, "ret"])
+    ops.append(["wait", "r%d" % n])
+    return prog
+
+
 def gen_program_start_under_load(rng):
     """start() (or a restart) while other threads keep submitting tasks that outlive the call, then - once the pool
     has gone quiet and shrunk - one more task that the controller waits for."""
